@@ -70,6 +70,9 @@ impl WorldCtx {
     }
 }
 
+/// number of consecutive raw sizes in the compressed sweep
+const COMPRESSED_SWEEP: u64 = 33;
+
 pub struct C02 {
     pub ctx: WorldCtx,
     sweep: Vec<(Exp, Dir, usize)>,
@@ -122,8 +125,85 @@ fn warden(exp: Exp, dir: Dir, len: usize) -> AnyMsg {
     }
 }
 
+/// a Wrath SMSG_COMPRESSED_UPDATE_OBJECT (its writers are overridden and decide the header form themselves) whose single
+/// OUT_OF_RANGE_OBJECTS block lists guids with `raw` packed bytes in total: incompressible, so the compressed size moves
+/// byte by byte with `raw`
+fn compressed_update_object(raw: usize, seed: u64) -> AnyMsg {
+    use wow_world_messages::wrath::{Object, SMSG_COMPRESSED_UPDATE_OBJECT};
+    let mut rng = Rng::new(seed);
+    let mut guids = Vec::new();
+    let full = raw / 9;
+    let part = raw % 9;
+    let mut byte = |rng: &mut Rng| 1 + rng.below(255);
+    for _ in 0..full {
+        let mut g = 0u64;
+        for k in 0..8 {
+            g |= byte(&mut rng) << (8 * k);
+        }
+        guids.push(wow_world_messages::Guid::new(g));
+    }
+    if part >= 1 {
+        // a guid whose packed form has 1 + (part - 1) bytes
+        let mut g = 0u64;
+        for k in 0..(part - 1) {
+            g |= byte(&mut rng) << (8 * k);
+        }
+        guids.push(wow_world_messages::Guid::new(g));
+    }
+    AnyMsg::WS(Box::new(SMSG_COMPRESSED_UPDATE_OBJECT { objects: vec![Object::OutOfRangeObjects { guids }] }.into()))
+}
+
+/// raw size at which the message's body is about `body` bytes long on this build of the library (measured, not assumed)
+pub fn compressed_raw_for_body(body: usize) -> usize {
+    let mut raw = body.saturating_sub(40);
+    for _ in 0..6 {
+        let got = guarded(|| write_plain(&compressed_update_object(raw, 1))).ok().and_then(|r| r.ok()).map(|b| b.len()).unwrap_or(body + 5);
+        // total = body + header (4 or 5): aim a little below the requested body, the sweep walks upwards from there
+        let want = body + 4;
+        if got == want {
+            break;
+        }
+        raw = (raw as i64 + want as i64 - got as i64).max(0) as usize;
+    }
+    raw
+}
+
+/// (raw size, seed) pairs whose messages have pairwise different total wire lengths covering, as densely as this build of
+/// the library allows, every length from 0x7FF0 to 0x8010 (the compressed size does not move linearly with the raw size, so
+/// candidates are measured: 3 seeds for each of 120 raw sizes)
+pub fn compressed_candidates() -> &'static Vec<(usize, u64)> {
+    static C: std::sync::OnceLock<Vec<(usize, u64)>> = std::sync::OnceLock::new();
+    C.get_or_init(|| {
+        let base = compressed_raw_for_body(0x7FFE - 30);
+        let mut by_len: std::collections::BTreeMap<usize, (usize, u64)> = std::collections::BTreeMap::new();
+        for raw in base..base + 120 {
+            for seed in 1..=3u64 {
+                if let Ok(Ok(b)) = guarded(|| write_plain(&compressed_update_object(raw, seed))) {
+                    if (0x7FF0..=0x8010).contains(&b.len()) {
+                        by_len.entry(b.len()).or_insert((raw, seed));
+                    }
+                }
+            }
+        }
+        let mut v: Vec<(usize, u64)> = by_len.into_values().collect();
+        if v.is_empty() {
+            v.push((base, 1));
+        }
+        v
+    })
+}
+
 /// insert WARDEN_DATA messages of exact body lengths at given positions of the workload
 pub fn inject_wardens(wl: &mut Workload, exp: Exp, dir: Dir, sc: &Value) {
+    if let Some(a) = sc["compressed_raw"].as_array() {
+        for e in a {
+            let pos = (e[0].as_u64().unwrap_or(0) as usize).min(wl.msgs.len());
+            let raw = e[1].as_u64().unwrap_or(0) as usize;
+            wl.msgs.insert(pos, compressed_update_object(raw, e[2].as_u64().unwrap_or(1)));
+            wl.names.insert(pos, "SMSG_COMPRESSED_UPDATE_OBJECT".to_string());
+            wl.body_lens.insert(pos, raw + 20);
+        }
+    }
     if let Some(a) = sc["warden"].as_array() {
         for e in a {
             let pos = (e[0].as_u64().unwrap_or(0) as usize).min(wl.msgs.len());
@@ -281,7 +361,7 @@ impl Check for C02 {
         "exploration"
     }
     fn rule(&self) -> String {
-        "Each run is one simulated session: 1-12 world messages (values obtained by decoding model-peer frames; for the length sweep a WARDEN_DATA message of an exact body length followed by a second message) are written with the library's writers (sync/tokio/async-std, short writes, Pending, EINTR) onto one SimPipe stream and read back with the opcode-enum reader or the typed expect helper under a scheduled chunking. Compressed messages are included with large incompressible payloads (their writers are overridden). After a successful read a typed helper is also asked for the WRONG type: it must return an opcode error and still consume exactly the announced bytes. Every enumerated run and a quarter of the sampled sessions are repeated through the encrypting writers and decrypting readers (fixed key, real wow_srp halves; violations of that pass carry the prefix 'encrypted:'). Enumerated part: (a) for EVERY world message one session made of up to 6 shapes of that message, chosen greedily out of 48 model-peer candidates so that every branch / enumerator the model reaches occurs at least once; (b) every multiple of 256 up to 0xFF00 with its two neighbours and every body length in 0..16, 0x7FF0..0x8010, 0xFFE8..0x10010 (and a few more) x 3 expansions x 2 directions, as far as the header form can express it. A run is non-trivial when at least one message was written and read and a chunk boundary, Pending or EINTR fell strictly inside a message; distinct = distinct event-log hashes (every transport call, every oracle verdict).".into()
+        "Each run is one simulated session: 1-12 world messages (values obtained by decoding model-peer frames; for the length sweep a WARDEN_DATA message of an exact body length followed by a second message) are written with the library's writers (sync/tokio/async-std, short writes, Pending, EINTR) onto one SimPipe stream and read back with the opcode-enum reader or the typed expect helper under a scheduled chunking. Compressed messages are included with large incompressible payloads (their writers are overridden). After a successful read a typed helper is also asked for the WRONG type: it must return an opcode error and still consume exactly the announced bytes. Every enumerated run and a quarter of the sampled sessions are repeated through the encrypting writers and decrypting readers (fixed key, real wow_srp halves; violations of that pass carry the prefix 'encrypted:'). Enumerated part: (a) for EVERY world message one session made of up to 6 shapes of that message, chosen greedily out of 48 model-peer candidates so that every branch / enumerator the model reaches occurs at least once; (c) a Wrath SMSG_COMPRESSED_UPDATE_OBJECT (overridden writers) at every total length from 0x7FF0 to 0x8010 that measured candidates reach, across the 2/3-byte header boundary; (b) every multiple of 256 up to 0xFF00 with its two neighbours and every body length in 0..16, 0x7FF0..0x8010, 0xFFE8..0x10010 (and a few more) x 3 expansions x 2 directions, as far as the header form can express it. A run is non-trivial when at least one message was written and read and a chunk boundary, Pending or EINTR fell strictly inside a message; distinct = distinct event-log hashes (every transport call, every oracle verdict).".into()
     }
     fn assumptions(&self) -> Vec<String> {
         vec![
@@ -300,7 +380,7 @@ impl Check for C02 {
             Tier::Quick => 1,
             Tier::Thorough => 4,
         };
-        (self.sweep.len() as u64 * reps + self.per_msg.len() as u64 * reps, match tier {
+        (self.sweep.len() as u64 * reps + self.per_msg.len() as u64 * reps + COMPRESSED_SWEEP, match tier {
             Tier::Quick => env_u64("VERIF_C02_RUNS", 60_000),
             Tier::Thorough => env_u64("VERIF_C02_RUNS", 3_000_000),
         })
@@ -331,6 +411,19 @@ impl Check for C02 {
             return json!({"kind": "sweep", "label": format!("{}:{}:{}:len={:#x}", exp.name(), dir.name(), warden_name(dir), len),
                 "exp": exp.name(), "dir": dir.name(), "warden": [[0, len]], "frames": frames, "names": names,
                 "wflavour": wfl.name(), "rflavour": rfl.name(), "rentry": entry, "wsched": sched_json(&ws), "rsched": sched_json(&rs), "encrypted_too": true});
+        }
+        if i < n_enum && i >= n_enum - COMPRESSED_SWEEP {
+            // Wrath compressed server messages of every size around the 2/3-byte header boundary: the raw size walks upwards
+            // byte by byte from a little below the boundary (measured on this build), so the compressed body takes every
+            // value across it; followed by a small message
+            let e = i - (n_enum - COMPRESSED_SWEEP);
+            let (raw, rseed) = compressed_candidates()[(e as usize) % compressed_candidates().len().max(1)];
+            let m = self.ctx.model(Exp::Wrath);
+            let (frames, names) = gen_frames(m, Exp::Wrath, Dir::Server, &mut wl, 1, &Knobs { avoid_cond_flag_branches: 100, ..Knobs::default() });
+            let fl = [Flavour::Sync, Flavour::Tokio, Flavour::Astd][(e % 3) as usize];
+            return json!({"kind": "compressed-sweep", "label": format!("wrath:server:SMSG_COMPRESSED_UPDATE_OBJECT:raw={}", raw),
+                "exp": "wrath", "dir": "server", "frames": frames, "names": names, "wrong_expect": [], "warden": [], "compressed_raw": [[0, raw, rseed]],
+                "wflavour": fl.name(), "rflavour": "sync", "rentry": if e % 2 == 0 { "enum" } else { "expect" }, "wsched": sched_json(&Schedule::whole()), "rsched": sched_json(&Schedule::whole()), "encrypted_too": true});
         }
         if i < n_enum {
             // per-message shape coverage: one session made of the shapes of ONE message that together cover every
@@ -868,6 +961,12 @@ pub fn run_session(o: &mut Outcome, exp: Exp, dir: Dir, wl: &Workload, sc: &Valu
                     }
                     if body_len >= 0x10000 {
                         o.count("probe_message_of_64KiB_or_more_read_back", 1);
+                    }
+                    if sc["kind"] == "compressed-sweep" && name.contains("COMPRESSED") {
+                        // wire length of the message incl. header: 0x8001/0x8002 are the last 4-byte-header and the first 5-byte-header message
+                        if (0x7FFC..=0x8008).contains(&body_len) {
+                            o.count(&format!("probe_compressed_message_wire_len_{:#x}", body_len), 1);
+                        }
                     }
                     continue;
                 }
